@@ -100,6 +100,8 @@ pub struct Program {
     loop_stack: Vec<LoopInfo>,
     data_iterator: Option<DataIterator>,
     functions: HashMap<Symbol, FunctionDefinition>,
+    #[cfg(feature = "verif-hooks")]
+    pub(crate) verif_token_reads: std::cell::Cell<u64>,
 }
 
 impl Program {
@@ -518,6 +520,9 @@ impl Program {
     /// Return the next token in the stream, if it exists,
     /// but don't advance our position in it.
     pub fn peek_next_token(&self) -> Option<Token> {
+        #[cfg(feature = "verif-hooks")]
+        self.verif_token_reads
+            .set(self.verif_token_reads.get().wrapping_add(1));
         self.tokens().get(self.location.token_index).cloned()
     }
 
@@ -633,5 +638,44 @@ impl Program {
                 Some(self.get_prev_location())
             }
         };
+    }
+}
+
+#[cfg(feature = "verif-hooks")]
+impl Program {
+    /// (stack frames as lists of (name, value is string), open loop symbols,
+    /// defined function names, has breakpoint, has data cursor)
+    pub(crate) fn verif_snapshot(
+        &self,
+    ) -> (
+        Vec<Vec<(String, bool)>>,
+        Vec<String>,
+        Vec<String>,
+        bool,
+        bool,
+    ) {
+        let frames = self
+            .stack
+            .iter()
+            .map(|frame| frame.variables.verif_entries())
+            .collect();
+        let loops = self
+            .loop_stack
+            .iter()
+            .map(|info| info.symbol.to_string())
+            .collect();
+        let mut functions: Vec<String> = self.functions.keys().map(|s| s.to_string()).collect();
+        functions.sort();
+        (
+            frames,
+            loops,
+            functions,
+            self.breakpoint.is_some(),
+            self.data_iterator.is_some(),
+        )
+    }
+
+    pub(crate) fn verif_line_len(&self, line_number: u64) -> Option<usize> {
+        self.numbered_lines.get(line_number).map(|tokens| tokens.len())
     }
 }
